@@ -33,3 +33,29 @@ Theorem C15_fd_bound : forall p t j (i k : nat) (e : R), (i < 6)%nat -> sg_ok p 
   Rabs ((vcoord k (tip p t (jset6 j i (jget j i + e))) - vcoord k (tip p t (jset6 j i (jget j i)))) / e - vcoord k (geo_col p t j i))
   <= Rabs e * vnorm (vsub (tip p t j) (tr (List.nth i (chain p j) iid))).
 Proof. exact jacobian_fd_bound. Qed.
+
+(** * uses of the matrix: torques = J^T F, velocities = J^-1 X (pseudo-inverse fallback) *)
+From VF Require Import Base.Num Model.JacUse Proofs.JacUseP.
+Import ListNotations.
+(** virtual work: the joint torques do the same work on every joint velocity as the wrench does on the twist it produces *)
+Theorem C15_torques_virtual_work : forall J F qd, shape6 J -> length F = 6%nat -> length qd = 6%nat ->
+  dot (torques J F) qd = dot F (mulv J qd).
+Proof. exact torques_virtual_work. Qed.
+Theorem C15_torques_unit_row : forall J (k : nat), shape6 J -> (k < 6)%nat -> torques J (unit6 k) = List.nth k J [].
+Proof. exact torques_unit_row. Qed.
+Theorem C15_torques_linear : forall J (a : R) F G, shape6 J -> length F = 6%nat -> length G = 6%nat ->
+  torques J (map (fun p => a * fst p + snd p) (combine F G)) = map (fun p => a * fst p + snd p) (combine (torques J F) (torques J G)).
+Proof. exact torques_linear. Qed.
+(** for every behaviour of try_inverse / pseudo_inverse that meets the contract "a returned matrix is a right inverse" *)
+Theorem C15_velocities_reproduce : forall try_inverse pseudo_inverse : list (list R) -> option (list (list R)),
+  (forall J Ji, try_inverse J = Some Ji -> forall X, length X = 6%nat -> mulv J (mulv Ji X) = X) ->
+  forall J X v, length X = 6%nat -> try_inverse J <> None -> velocities try_inverse pseudo_inverse J X = Some v -> mulv J v = X.
+Proof. exact velocities_reproduce. Qed.
+Theorem C15_velocities_error_iff : forall (try_inverse pseudo_inverse : list (list R) -> option (list (list R))) J X,
+  velocities try_inverse pseudo_inverse J X = None <-> try_inverse J = None /\ pseudo_inverse J = None.
+Proof. exact velocities_error_iff. Qed.
+Theorem C15_entry_points_agree : forall (try_inverse pseudo_inverse : list (list R) -> option (list (list R))) (Iso : Type) (vec_of : Iso -> list R) J d vx vy vz,
+  velocities_iso try_inverse pseudo_inverse Iso vec_of J d = velocities try_inverse pseudo_inverse J (vec_of d) /\
+  torques_iso Iso vec_of J d = torques J (vec_of d) /\
+  velocities_fixed try_inverse pseudo_inverse J vx vy vz = velocities try_inverse pseudo_inverse J [vx; vy; vz; 0; 0; 0].
+Proof. exact entry_points_agree. Qed.
